@@ -1,5 +1,6 @@
 //! Correspondence harness: runs rdest (built from /repo's working tree with the
 //! `verif` feature) on case files and prints one canonical result line per case.
+mod bc;
 mod c07;
 mod util;
 
@@ -13,6 +14,7 @@ fn main() {
     let lines = util::read_lines(&args[2]);
     match args[1].as_str() {
         "c07" => c07::run(&lines),
+        "bc" => bc::run(&lines),
         other => {
             eprintln!("unknown property {}", other);
             std::process::exit(2);
